@@ -2,7 +2,7 @@ CHECKS['C04'] = dict(
     engine='E-seq',
     design_ref='DESIGN.md 4 C04',
     technique='explicit-state BFS over all RIB-operation/transmit interleavings to a depth bound on the real OutgoingRIB, peer-table reference model',
-    text='Every sequence (depth 6 quick, 7 thorough) of announce/withdraw/watchdog/flush/clear operations interleaved with single-message '
+    text='Every sequence (depth 6 quick, 7 thorough) of announce/withdraw (bare prefix, and the full announce line with its attributes in the ungrouped variant)/watchdog/flush/clear operations interleaved with single-message '
          'transmitter steps is executed on a real OutgoingRIB through the real Protocol.new_update_generator; from every reached state the queue '
          'is drained and the table a reference BGP receiver builds from the emitted bytes must equal both cached_routes() and the table the '
          'history intends. Exhaustive inside the bound, which is the right level for an ordering/atomicity property of a small state machine.',
